@@ -38,7 +38,8 @@ CHECKS = {
              "and channel schedules."),
     "design_ref": "DESIGN.md section 3 (C08)",
     "note": ("Trusted: sim/ref/screen608.py as a model of CEA-608 for the generated (protocol-following) scripts; comparison only at quiescent frames "
-             "with blank runs collapsed; roll-up rows by order and count. Four open known findings with one root cause (rows written over earlier content, pop-on and paint-on, characters and attributes)."),
+             "with blank runs collapsed; roll-up compared anchored at base row 15. Six open known findings: four with one root cause (rows written over earlier content, pop-on and paint-on, "
+             "characters and attributes), roll-up base row forced to 15, roll-up rows displayed before their later words are received."),
     "technique": "deterministic simulation: simulated encoder + perturbing channel with a simulated frame clock, lock-step reference decoder, history check of display and change times",
   },
   "C18": {
@@ -52,8 +53,7 @@ CHECKS = {
              "drop/duplication/swap) of one small seeded file. Oracle: the error-class contract of the statement, termination, and no exception "
              "downstream. Complete along the single-fault dimension per swept file; files and multi-fault combinations are sampled."),
     "design_ref": "DESIGN.md section 3 (C18)",
-    "note": ("Trusted: exception classification (xml.etree rejections count as input-format errors; a RuntimeError raised inside the reader's own "
-             "package is counted, not alarmed), wall-clock termination limits, producers as workload only."),
+    "note": ("Trusted: exception classification (xml.etree rejections count as input-format errors; the listed input-format errors are read as exhaustive), wall-clock termination limits, producers as workload only."),
     "technique": "deterministic simulation with fault injection: producer -> faulted storage -> real reader -> real pipeline; single-fault crash-point sweeps + seeded multi-fault sampling",
   },
   "C14": {
@@ -62,7 +62,7 @@ CHECKS = {
     "text": ("Seeded histories of significant_times / from_model (uncached and with kept, stale SignificantTimes objects) / generate_isd_sequence / "
              "SRT / WebVTT / IMSC writer calls on ONE shared document; after every call the source fingerprint (and that of cached per-region "
              "clones) must be unchanged, the result must equal the same call on a pristine equal document, repeats must agree, and cached "
-             "snapshots must equal uncached ones modulo empty regions that paint nothing. Sampling over documents (model-API recipes and reader "
+             "snapshots must equal uncached ones modulo empty regions that paint nothing and content subtrees without text or line breaks. Sampling over documents (model-API recipes and reader "
              "outputs), times and call orders."),
     "design_ref": "DESIGN.md section 3 (C14)",
     "note": "Trusted: canonical forms of ISDs/documents, the paint rule for empty regions, determinism of my recipe builder (guarded: two builds must fingerprint equal).",
